@@ -572,6 +572,73 @@ def _compare(ctx, pending, answers):
                 ctx.disagree('L0', case, impl, ('ok', want), 'query: groups returned')
 
 
+def _third_party(ctx, reqs3, pending3):
+    """Containers as a third party might write them (and as nobody should): items reordered, reference items duplicated, a
+    second reference of another type added, the reference removed or given another relationship, template ids stripped.
+    The construction parameters no longer describe such a group, so the oracle only demands a duplicate-free answer in
+    document order; the model (`queryItems` over the items read back through pydicom) must agree on ok-vs-error and on the
+    groups returned (L0) — this is what exercises the error paths of the ROI reference search."""
+    import highdicom as hd
+    from gen import srreports
+    for idx in range(ctx.n(14, 220)):
+        r = ctx.rng('thirdparty', idx)
+        res = _call(srreports.report, r, r.choice([1, 2, 3]), ('planar', 'volumetric'))
+        if res[0] != 'ok':
+            ctx.fail({'stream': 'thirdparty', 'seed': ctx.seed, 'idx': idx}, f'report not constructed: {res[2]}', site='report/construct')
+            continue
+        rep, groups, pool = res[1]
+        for k, g in enumerate(groups):
+            g['tracking_uid'] = f'{pool["base"]}.9.{100 + k}'      # unique, so that answers identify groups
+        conts = rep._find_measurement_groups()
+        kinds = []
+        for k, cont in enumerate(conts):
+            for u in cont.ContentSequence:
+                if str(u.ValueType) == 'UIDREF' and u.ConceptNameCodeSequence[0].CodeValue == '112040':
+                    u.UID = groups[k]['tracking_uid']
+            items = list(cont.ContentSequence)
+            is_ref = lambda it: it.ConceptNameCodeSequence[0].CodeValue in ('111030', '121214', '121191', '121231', '130488')  # noqa: E731
+            refs_ = [i for i in items if is_ref(i)]
+            what = r.choice(['none', 'shuffle', 'duplicate-ref', 'second-type', 'remove-ref', 'ref-relationship', 'strip'])
+            if what == 'shuffle':
+                r.shuffle(items)
+            elif what == 'duplicate-ref' and refs_:
+                items.append(__import__('copy').deepcopy(refs_[0]))
+            elif what == 'second-type':
+                items.append(hd.sr.CompositeContentItem(
+                    name=hd.sr.CodedConcept(value='130488', scheme_designator='DCM', meaning='Region in Space'),
+                    referenced_sop_class_uid=srreports.RTSS, referenced_sop_instance_uid=pool['rts'][0][1], relationship_type='CONTAINS'))
+            elif what == 'remove-ref':
+                items = [i for i in items if not is_ref(i)]
+            elif what == 'ref-relationship' and refs_:
+                refs_[0].RelationshipType = 'HAS PROPERTIES'
+            if what == 'strip' or r.random() < 0.3:
+                if 'ContentTemplateSequence' in cont:
+                    del cont.ContentTemplateSequence
+            cont.ContentSequence = hd.sr.ContentSequence(items)
+            kinds.append(what)
+        model_groups = [_real_items(c) for c in conts]
+        uids = [g['tracking_uid'] for g in groups]
+        for method in ('planar', 'volumetric', 'image'):
+            values = _filter_values(r, groups, pool, method)
+            for f in itertools.islice(_combos(r, method, values, False), 10):
+                res = _call(getattr(rep, METHODS[method]), **_to_args(f))
+                case = {'stream': 'thirdparty', 'seed': ctx.seed, 'idx': idx, 'method': method,
+                        'filters': {k: v for k, v in f.items() if v is not None}, 'perturbations': kinds}
+                ok = res[0] == 'ok'
+                ctx.case(path='third-party', method=method, perturbation='+'.join(sorted(set(kinds))),
+                         outcome=('ok' if ok else res[2].split(':')[0]),
+                         nontrivial_key=('thirdparty', method, tuple(kinds), ok, tuple(k for k in f if f[k] is not None)))
+                got = None
+                if ok:
+                    got = [uids.index(_tracking(s_)) if _tracking(s_) in uids else -1 for s_ in res[1]]
+                    if -1 in got or got != sorted(set(got)):
+                        ctx.fail(case, {'what': 'answer is not a duplicate-free list of the report\'s groups in document order',
+                                        'got': got}, site=f'{method}/third-party-order')
+                reqs3.append(('queryItems', {'method': method, 'groups': model_groups,
+                                             'filters': {k: (list(v) if isinstance(v, tuple) else v) for k, v in f.items()}}))
+                pending3.append((case, ('ok', got) if ok else ('err', res[1])))
+
+
 def _helpers(ctx, reqs2, pending2):
     """L2: the translated classification against the private helpers on synthetic count vectors is covered by the
     public queries on template-less groups; here the argument checks are enumerated completely (no report needed)."""
@@ -613,19 +680,30 @@ def run(ctx):
     reqs2, pending2 = [], []
     spec_reqs, spec_pending = [], []
     _helpers(ctx, reqs2, pending2)
-    for idx in range(ctx.n(38, 520)):
+    for idx in range(ctx.n(30, 450)):
         res = _call(_report_case, ctx, idx)
         if res[0] != 'ok':
             ctx.fail({'stream': 'report', 'seed': ctx.seed, 'idx': idx}, f'a valid report could not be constructed: {res[2]}',
                      site='report/construct')
             continue
         _check_report(ctx, res[1], reqs, pending, spec_reqs=spec_reqs, spec_pending=spec_pending)
-    answers = ctx.model(reqs + reqs2 + spec_reqs)
+    reqs3, pending3 = [], []
+    _third_party(ctx, reqs3, pending3)
+    answers = ctx.model(reqs + reqs2 + spec_reqs + reqs3)
     if answers is None:
         return
+    for (case, impl), ans in zip(pending3, answers[len(reqs) + len(reqs2) + len(spec_reqs):]):
+        if 'proto_err' in ans:
+            ctx.disagree('L0', case, impl, ans, 'model protocol error')
+            continue
+        model = ('ok', ans['ok']) if 'ok' in ans else ('err', ans['err'])
+        if impl[0] != model[0]:
+            ctx.disagree('L0', case, impl, model, 'third-party query: ok-vs-error')
+        elif impl[0] == 'ok' and impl[1] != model[1]:
+            ctx.disagree('L0', case, impl, model, 'third-party query: groups returned')
     _compare(ctx, pending, answers[:len(reqs)])
     # the declarative statement of the theorems (specKind && specFilters, Lean) against the oracle's statement (Python)
-    for (case, why, must, may), ans in zip(spec_pending, answers[len(reqs) + len(reqs2):]):
+    for (case, why, must, may), ans in zip(spec_pending, answers[len(reqs) + len(reqs2):len(reqs) + len(reqs2) + len(spec_reqs)]):
         if 'ok' not in ans:
             ctx.disagree('L0', case, None, ans, 'spec: model protocol error')
             continue
